@@ -468,3 +468,68 @@ Proof.
     rewrite forallb_forall in F. rewrite (F (nth j r [])) in Hn; [discriminate Hn|].
     apply in_map_iff. exists r. split; [reflexivity | exact Hr].
 Qed.
+
+(* ---- narrowness: without NUM_ROWS, late_rows_fit is also necessary ---------------------------------- *)
+
+Lemma ffner_offset_le : forall rows off r, find_first_non_empty_row rows = (off, r) -> off <= length rows.
+Proof.
+  intros rows off r H. destruct (ffner_spec _ _ _ H) as [[_ [-> _]]|[k [-> [Hk _]]]]; [lia|].
+  assert (k < length rows) by (apply nth_error_Some; congruence). lia.
+Qed.
+
+Lemma decision_offset_le : forall isnum o g off hs,
+  header_decision isnum o g = (off, hs) -> off <= sample_len.
+Proof.
+  intros isnum o g off hs H. unfold header_decision, headers_guess in H.
+  destruct (find_first_non_empty_row (firstn sample_len g)) as [off0 header] eqn:Ef.
+  pose proof (ffner_offset_le _ _ _ Ef) as Hle.
+  pose proof (firstn_le_length sample_len g) as Hlen.
+  assert (Hgoal : forall a, a <= off0 -> a <= sample_len) by (intros; lia).
+  destruct header as [|h0 ht].
+  - destruct (_ && negb (any_header [])); [inversion H; subst; auto|].
+    destruct (_ && any_header []); inversion H; subst; apply Hgoal; lia.
+  - destruct (is_header isnum (h0 :: ht) (skipn off0 (firstn sample_len g)));
+      (destruct (_ && negb (any_header _)); [inversion H; subst; auto|]);
+      (destruct (_ && any_header _); inversion H; subst; apply Hgoal; lia).
+Qed.
+
+Lemma late_rows_fit_necessary : forall isnum g o,
+  (o_num_rows o <= 0)%Z -> C32_statement false isnum g o -> late_rows_fit isnum g o.
+Proof.
+  intros isnum g o Hn H. apply statement_iff in H. unfold rows_fit in H. rewrite forallb_forall in H.
+  unfold late_rows_fit. apply Forall_forall. intros r Hr. apply Nat.leb_le. apply H.
+  unfold csv_data_rows, take_rows. replace (0 <? o_num_rows o)%Z with false by (symmetry; apply Z.ltb_ge; exact Hn).
+  unfold csv_offset. destruct (header_decision isnum o g) as [off hs] eqn:Ed. cbn [fst].
+  pose proof (decision_offset_le _ _ _ _ _ Ed) as Hoff.
+  replace sample_len with (off + (sample_len - off)) in Hr by lia.
+  rewrite <- skipn_skipn in Hr. rewrite Nat.add_comm in Hr. rewrite <- skipn_skipn in Hr.
+  eapply In_skipn. exact Hr.
+Qed.
+
+(* ---- decision procedures for the hypotheses, witnesses ---------------------------------------------- *)
+
+Lemma late_rows_fit_dec : forall isnum g o,
+  rows_fit (csv_width false isnum g o) (skipn sample_len g) = true -> late_rows_fit isnum g o.
+Proof.
+  intros isnum g o H. unfold rows_fit in H. rewrite forallb_forall in H.
+  unfold late_rows_fit. apply Forall_forall. intros r Hr. apply Nat.leb_le. apply H. exact Hr.
+Qed.
+
+Definition no_numbers (c : cell) : bool := false.
+Definition default_options : options := {| o_headers := None; o_num_rows := 0 |}.
+Definition s (c : Z) : cell := [c].
+
+(* 100 rows `a,b` then one row `x,y,z` *)
+Definition late_wide_witness : grid := repeat [s 97; s 98] 100 ++ [[s 120; s 121; s 122]].
+(* a blank first line, then single-column data *)
+Definition blank_first_witness : grid := [[]; [s 97]; [s 98]].
+(* header, a three-cell row inside the sample, a three-cell row after it *)
+Definition fitting_example : grid :=
+  [[78; 97; 109; 101]; [67; 105; 116; 121]]%Z :: repeat [s 97; s 98] 4 ++ [[s 97; s 98; s 99]] ++
+  repeat [s 97; s 98] 95 ++ [[s 120; s 121; s 122]].
+
+Lemma late_wide_refutes : ~ C32_statement false no_numbers late_wide_witness default_options.
+Proof. intro H. apply statement_iff in H. vm_compute in H. discriminate H. Qed.
+
+Lemma blank_first_refutes : ~ C32_statement false no_numbers blank_first_witness default_options.
+Proof. intro H. apply statement_iff in H. vm_compute in H. discriminate H. Qed.
